@@ -2,6 +2,13 @@
 // generated spend graphs of real wire.MsgTx and prints, per graph, the graph
 // (hashes interned to small ids), the orders observed, and the property
 // oracle evaluated directly on those orders.
+//
+// In the store part some outside parents are real transactions mined in the
+// store (coinbase or ordinary, with credits), and a history of confirm/abandon
+// steps is applied after the members were inserted unmined. "Every
+// unconfirmed transaction" is judged against the harness's own ledger of
+// inserted-and-not-removed members (c14Ledger), never against what the store
+// itself lists (Store.UnminedTxHashes is recorded and tagged only).
 package main
 
 import (
@@ -33,10 +40,30 @@ type c14Tx struct {
 	Ins [][2]int `json:"ins"`
 }
 
+// c14Mined makes the outside parent ID (>= 1000, not a member) a REAL
+// transaction that is mined in the store at height H before the members are
+// inserted (a coinbase when Coinbase is set), with a credit for each output.
+type c14Mined struct {
+	ID       int  `json:"id"`
+	Coinbase bool `json:"coinbase"`
+	H        int  `json:"h"`
+}
+
+// c14Op is one step of the history applied to the store after the members
+// were inserted unmined: "confirm" (the member is mined at height H) or
+// "abandon" (Store.RemoveUnminedTx).
+type c14Op struct {
+	K  string `json:"k"`
+	ID int    `json:"id"`
+	H  int    `json:"h,omitempty"`
+}
+
 type c14Input struct {
-	Txs   []c14Tx `json:"txs"`
-	Runs  int     `json:"runs"`  // calls of DependencySort (maps rebuilt in a fresh insertion order each time)
-	Store bool    `json:"store"` // also insert into a real Store and call UnminedTxs
+	Txs   []c14Tx    `json:"txs"`
+	Runs  int        `json:"runs"`  // calls of DependencySort (maps rebuilt in a fresh insertion order each time)
+	Store bool       `json:"store"` // also insert into a real Store and call UnminedTxs
+	Mined []c14Mined `json:"mined,omitempty"`
+	Ops   []c14Op    `json:"ops,omitempty"`
 }
 
 type c14Obs struct {
@@ -44,7 +71,11 @@ type c14Obs struct {
 	Store      [][]int `json:"store"` // distinct orders returned by Store.UnminedTxs
 	SortRuns   int     `json:"sort_runs"`
 	StoreRuns  int     `json:"store_runs"`
-	StoreKept  bool    `json:"store_kept_all"` // the store's unmined set equals the inserted set
+	Ledger     []int   `json:"ledger"`                 // the harness's own record of the unconfirmed members (never read from the store)
+	HashList   []int   `json:"unmined_hashes"`         // Store.UnminedTxHashes, as ids, sorted (observation only)
+	HashesEq   bool    `json:"store_hashes_eq_ledger"` // UnminedTxHashes is exactly the ledger
+	OpsApplied int     `json:"ops_applied"`
+	OpsSkipped int     `json:"ops_skipped"`
 	StoreError string  `json:"store_error,omitempty"`
 }
 
@@ -70,11 +101,17 @@ func outsideHash(id int) chainhash.Hash {
 // c14Build turns the model graph into real transactions. Hashes of members
 // depend on the hashes of the members they spend, so members are built parents
 // first (depth-first); a cyclic input cannot be realised and is an error.
-func c14Build(txs []c14Tx) (map[int]*wire.MsgTx, map[chainhash.Hash]int, error) {
+//
+// Outside parents listed in mined are real transactions too (built first, no
+// member input): a coinbase (one input with the null previous outpoint and an
+// 8 byte signature script, so that blockchain.IsCoinBaseTx holds) or an
+// ordinary transaction spending a synthetic outpoint. Members that spend them
+// reference their real hash.
+func c14Build(txs []c14Tx, mined []c14Mined) (map[int]*wire.MsgTx, map[chainhash.Hash]int, map[int]*wire.MsgTx, error) {
 	byID := map[int]*c14Tx{}
 	for i := range txs {
 		if _, dup := byID[txs[i].ID]; dup {
-			return nil, nil, fmt.Errorf("duplicate id %d", txs[i].ID)
+			return nil, nil, nil, fmt.Errorf("duplicate id %d", txs[i].ID)
 		}
 		byID[txs[i].ID] = &txs[i]
 	}
@@ -86,8 +123,42 @@ func c14Build(txs []c14Tx) (map[int]*wire.MsgTx, map[chainhash.Hash]int, error) 
 			}
 		}
 	}
+	outputs := func(m *wire.MsgTx, id int) {
+		n := nOut[id]
+		if n == 0 {
+			n = 1
+		}
+		for o := 0; o < n; o++ {
+			pk := []byte{0x6a, 8, 0, 0, 0, 0, 0, 0, 0, 0}
+			binary.BigEndian.PutUint32(pk[2:], uint32(id))
+			binary.BigEndian.PutUint32(pk[6:], uint32(o))
+			m.AddTxOut(wire.NewTxOut(int64(1000+o), pk))
+		}
+	}
 	built := map[int]*wire.MsgTx{}
 	hashes := map[int]chainhash.Hash{}
+	minedTx := map[int]*wire.MsgTx{}
+	for _, mp := range mined {
+		if _, member := byID[mp.ID]; member {
+			return nil, nil, nil, fmt.Errorf("mined parent %d is a member of the set", mp.ID)
+		}
+		if _, dup := minedTx[mp.ID]; dup {
+			return nil, nil, nil, fmt.Errorf("duplicate mined parent %d", mp.ID)
+		}
+		m := wire.NewMsgTx(wire.TxVersion)
+		if mp.Coinbase {
+			sig := make([]byte, 8)
+			binary.BigEndian.PutUint32(sig[0:], uint32(mp.H))
+			binary.BigEndian.PutUint32(sig[4:], uint32(mp.ID))
+			m.AddTxIn(wire.NewTxIn(wire.NewOutPoint(&chainhash.Hash{}, wire.MaxPrevOutIndex), sig, nil))
+		} else {
+			h := outsideHash(mp.ID)
+			m.AddTxIn(wire.NewTxIn(wire.NewOutPoint(&h, 7), nil, nil))
+		}
+		outputs(m, mp.ID)
+		minedTx[mp.ID] = m
+		hashes[mp.ID] = m.TxHash()
+	}
 	state := map[int]int{} // 1 = in progress, 2 = done
 	var build func(id int) error
 	build = func(id int) error {
@@ -107,6 +178,8 @@ func c14Build(txs []c14Tx) (map[int]*wire.MsgTx, map[chainhash.Hash]int, error) 
 					return err
 				}
 				h = hashes[in[0]]
+			} else if mh, isMined := hashes[in[0]]; isMined && minedTx[in[0]] != nil {
+				h = mh
 			} else {
 				h = outsideHash(in[0])
 			}
@@ -115,16 +188,7 @@ func c14Build(txs []c14Tx) (map[int]*wire.MsgTx, map[chainhash.Hash]int, error) 
 		if len(t.Ins) == 0 {
 			return fmt.Errorf("id %d has no input (not serialisable)", id)
 		}
-		n := nOut[id]
-		if n == 0 {
-			n = 1
-		}
-		for o := 0; o < n; o++ {
-			pk := []byte{0x6a, 8, 0, 0, 0, 0, 0, 0, 0, 0}
-			binary.BigEndian.PutUint32(pk[2:], uint32(id))
-			binary.BigEndian.PutUint32(pk[6:], uint32(o))
-			m.AddTxOut(wire.NewTxOut(int64(1000+o), pk))
-		}
+		outputs(m, id)
 		built[id] = m
 		hashes[id] = m.TxHash()
 		state[id] = 2
@@ -137,14 +201,14 @@ func c14Build(txs []c14Tx) (map[int]*wire.MsgTx, map[chainhash.Hash]int, error) 
 	sort.Ints(ids)
 	for _, id := range ids {
 		if err := build(id); err != nil {
-			return nil, nil, err
+			return nil, nil, nil, err
 		}
 	}
 	idOf := map[chainhash.Hash]int{}
 	for id, h := range hashes {
 		idOf[h] = id
 	}
-	return built, idOf, nil
+	return built, idOf, minedTx, nil
 }
 
 // ---------------------------------------------------------------- oracle
@@ -252,9 +316,158 @@ func toIDs(out []*wire.MsgTx, idOf map[chainhash.Hash]int) []int {
 	return order
 }
 
-func (ru *runner) storeRuns(built map[int]*wire.MsgTx, idOf map[chainhash.Hash]int, ids []int, runs int) (orders [][]int, kept bool, err error) {
+// ---------------------------------------------------------------- ledger
+
+// c14Ledger is the harness's own record of which members are unconfirmed
+// transactions of the wallet: inserted unmined and neither mined since nor
+// removed. It is computed from the input alone and never reads the store.
+//
+//	confirm id: id leaves (it is mined); every ledger member that spends an
+//	            outpoint id spends can never confirm any more (double spend of
+//	            a mined transaction) and leaves with everything that
+//	            transitively spends its outputs
+//	            (insertMinedTx -> removeDoubleSpends -> removeConflict);
+//	abandon id: id leaves with everything that transitively spends its outputs
+//	            (RemoveUnminedTx -> removeConflict).
+type c14Ledger struct {
+	byID     map[int]*c14Tx
+	in       map[int]bool
+	children map[int][]int    // member id -> members spending one of its outputs
+	spenders map[[2]int][]int // outpoint -> members spending it
+}
+
+func newLedger(txs []c14Tx) *c14Ledger {
+	l := &c14Ledger{byID: map[int]*c14Tx{}, in: map[int]bool{}, children: map[int][]int{}, spenders: map[[2]int][]int{}}
+	for i := range txs {
+		l.byID[txs[i].ID] = &txs[i]
+	}
+	for _, t := range txs {
+		seenP, seenO := map[int]bool{}, map[[2]int]bool{}
+		for _, in := range t.Ins {
+			if _, member := l.byID[in[0]]; member && !seenP[in[0]] {
+				seenP[in[0]] = true
+				l.children[in[0]] = append(l.children[in[0]], t.ID)
+			}
+			if !seenO[in] {
+				seenO[in] = true
+				l.spenders[in] = append(l.spenders[in], t.ID)
+			}
+		}
+	}
+	return l
+}
+
+func (l *c14Ledger) ids() []int {
+	out := make([]int, 0, len(l.in))
+	for id := range l.in {
+		out = append(out, id)
+	}
+	sort.Ints(out)
+	return out
+}
+
+// removeTree removes id and every ledger member that transitively spends an
+// output of a removed member; it returns how many left.
+func (l *c14Ledger) removeTree(id int) int {
+	if !l.in[id] {
+		return 0
+	}
+	delete(l.in, id)
+	n := 1
+	for _, c := range l.children[id] {
+		n += l.removeTree(c)
+	}
+	return n
+}
+
+func (l *c14Ledger) hasLedgerChild(id int) bool {
+	for _, c := range l.children[id] {
+		if l.in[c] {
+			return true
+		}
+	}
+	return false
+}
+
+// canConfirm: a chain never confirms a child before its parent, so every
+// in-set parent must have been confirmed already (a parent that was removed
+// took the child with it; hence: no parent is in the ledger). A member whose
+// input is spent by a confirmed member left the ledger at that confirmation.
+func (l *c14Ledger) canConfirm(id int) bool {
+	if !l.in[id] {
+		return false
+	}
+	for _, in := range l.byID[id].Ins {
+		if l.in[in[0]] {
+			return false
+		}
+	}
+	return true
+}
+
+// conflicts lists the ledger members other than id that spend an outpoint id spends.
+func (l *c14Ledger) conflicts(id int) []int {
+	var out []int
+	seen := map[int]bool{}
+	for _, in := range l.byID[id].Ins {
+		for _, s := range l.spenders[in] {
+			if s != id && l.in[s] && !seen[s] {
+				seen[s] = true
+				out = append(out, s)
+			}
+		}
+	}
+	return out
+}
+
+func (l *c14Ledger) confirm(id int) (conflicts, withDesc int) {
+	cs := l.conflicts(id)
+	delete(l.in, id)
+	for _, s := range cs {
+		if k := l.removeTree(s); k > 0 {
+			conflicts++
+			if k > 1 {
+				withDesc++
+			}
+		}
+	}
+	return
+}
+
+func (l *c14Ledger) abandon(id int) (descendants int) { return l.removeTree(id) - 1 }
+
+func blockMeta(h int) *wtxmgr.BlockMeta {
+	var b [12]byte
+	copy(b[:], "c14-blk-")
+	binary.BigEndian.PutUint32(b[8:], uint32(h))
+	return &wtxmgr.BlockMeta{
+		Block: wtxmgr.Block{Hash: chainhash.Hash(sha256.Sum256(b[:])), Height: int32(h)},
+		Time:  time.Unix(1500000000+int64(h)*600, 0),
+	}
+}
+
+type storeResult struct {
+	orders   [][]int
+	ledger   []int
+	hashList []int
+	hashesEq bool
+	inserted int
+	applied  int
+	skipped  int
+	tags     []string
+}
+
+// storeRuns inserts the mined parents (mined, with credits), then the members
+// (unmined), applies the history, and calls UnminedTxs. The ledger it returns
+// is maintained here from the calls made, not from anything the store says.
+func (ru *runner) storeRuns(in c14Input, built map[int]*wire.MsgTx, minedTx map[int]*wire.MsgTx, idOf map[chainhash.Hash]int, ids []int, runs int) (res storeResult, err error) {
 	ru.nsSeq++
 	nsKey := []byte(fmt.Sprintf("c14-%d", ru.nsSeq))
+	led := newLedger(in.Txs)
+	tagSet := map[string]bool{}
+	recOf := func(id int, k int) (*wtxmgr.TxRecord, error) {
+		return wtxmgr.NewTxRecordFromMsgTx(built[id], time.Unix(1600000000+int64(k), 0))
+	}
 	var s *wtxmgr.Store
 	err = walletdb.Update(ru.db, func(tx walletdb.ReadWriteTx) error {
 		ns, err := tx.CreateTopLevelBucket(nsKey)
@@ -268,19 +481,88 @@ func (ru *runner) storeRuns(built map[int]*wire.MsgTx, idOf map[chainhash.Hash]i
 		if err != nil {
 			return err
 		}
+		for _, mp := range in.Mined {
+			rec, err := wtxmgr.NewTxRecordFromMsgTx(minedTx[mp.ID], time.Unix(1500000000+int64(mp.H)*600, 0))
+			if err != nil {
+				return err
+			}
+			bm := blockMeta(mp.H)
+			if err := s.InsertTx(ns, rec, bm); err != nil {
+				return err
+			}
+			for o := range rec.MsgTx.TxOut {
+				if err := s.AddCredit(ns, rec, bm, uint32(o), false); err != nil {
+					return err
+				}
+			}
+		}
 		for _, p := range ru.r.Perm(len(ids)) {
-			rec, err := wtxmgr.NewTxRecordFromMsgTx(built[ids[p]], time.Unix(1600000000+int64(p), 0))
+			rec, err := recOf(ids[p], p)
 			if err != nil {
 				return err
 			}
 			if err := s.InsertTx(ns, rec, nil); err != nil {
 				return err
 			}
+			led.in[ids[p]] = true
 		}
 		return nil
 	})
 	if err != nil {
-		return nil, false, err
+		return res, err
+	}
+	res.inserted = len(led.in)
+	for k, op := range in.Ops {
+		valid := false
+		switch op.K {
+		case "confirm":
+			valid = led.canConfirm(op.ID)
+		case "abandon":
+			valid = led.in[op.ID]
+		}
+		if !valid {
+			// (a shrunk or hand-written history may name a member that left)
+			res.skipped++
+			tagSet["op_skipped"] = true
+			continue
+		}
+		err = walletdb.Update(ru.db, func(tx walletdb.ReadWriteTx) error {
+			ns := tx.ReadWriteBucket(nsKey)
+			rec, err := recOf(op.ID, 1000+k)
+			if err != nil {
+				return err
+			}
+			if op.K == "confirm" {
+				return s.InsertTx(ns, rec, blockMeta(op.H))
+			}
+			return s.RemoveUnminedTx(ns, rec)
+		})
+		if err != nil {
+			return res, fmt.Errorf("op %d (%s %d): %v", k, op.K, op.ID, err)
+		}
+		res.applied++
+		if op.K == "confirm" {
+			tagSet["op_confirm"] = true
+			c, wd := led.confirm(op.ID)
+			if c > 0 {
+				tagSet["confirm_removes_conflict"] = true
+			}
+			if wd > 0 {
+				tagSet["confirm_removes_conflict_with_descendants"] = true
+			}
+		} else {
+			tagSet["op_abandon"] = true
+			if led.abandon(op.ID) > 0 {
+				tagSet["op_abandon_with_descendants"] = true
+			}
+		}
+	}
+	res.ledger = led.ids()
+	if len(res.ledger) < res.inserted {
+		tagSet["ledger_smaller_than_inserted"] = true
+	}
+	if len(res.ledger) == 0 {
+		tagSet["ledger_empty"] = true
 	}
 	err = walletdb.View(ru.db, func(tx walletdb.ReadTx) error {
 		ns := tx.ReadBucket(nsKey)
@@ -288,29 +570,52 @@ func (ru *runner) storeRuns(built map[int]*wire.MsgTx, idOf map[chainhash.Hash]i
 		if err != nil {
 			return err
 		}
-		have := map[int]bool{}
+		res.hashList = []int{}
 		for _, h := range hs {
 			if id, ok := idOf[*h]; ok {
-				have[id] = true
+				res.hashList = append(res.hashList, id)
+			} else {
+				res.hashList = append(res.hashList, foreignID)
 			}
 		}
-		kept = len(hs) == len(ids) && len(have) == len(ids)
+		sort.Ints(res.hashList)
+		res.hashesEq = orderKey(res.hashList) == orderKey(res.ledger)
 		for i := 0; i < runs; i++ {
 			out, err := s.UnminedTxs(ns)
 			if err != nil {
 				return err
 			}
-			orders = append(orders, toIDs(out, idOf))
+			res.orders = append(res.orders, toIDs(out, idOf))
 		}
 		return nil
 	})
+	for t := range tagSet {
+		res.tags = append(res.tags, t)
+	}
+	sort.Strings(res.tags)
 	if err != nil {
-		return nil, kept, err
+		return res, err
 	}
 	err = walletdb.Update(ru.db, func(tx walletdb.ReadWriteTx) error {
 		return tx.DeleteTopLevelBucket(nsKey)
 	})
-	return orders, kept, err
+	return res, err
+}
+
+// restrict gives the members that are in the ledger, inputs unchanged: members
+// that left count as transactions outside the set.
+func restrict(txs []c14Tx, ledger []int) []c14Tx {
+	in := map[int]bool{}
+	for _, id := range ledger {
+		in[id] = true
+	}
+	out := []c14Tx{}
+	for _, t := range txs {
+		if in[t.ID] {
+			out = append(out, t)
+		}
+	}
+	return out
 }
 
 func (ru *runner) runCase(in c14Input, tags []string, out *core.Emitter) (fatal bool, err error) {
@@ -322,7 +627,7 @@ func (ru *runner) runCase(in c14Input, tags []string, out *core.Emitter) (fatal 
 			in.Txs[i].Ins = [][2]int{}
 		}
 	}
-	built, idOf, err := c14Build(in.Txs)
+	built, idOf, minedTx, err := c14Build(in.Txs, in.Mined)
 	if err != nil {
 		return false, err
 	}
@@ -331,7 +636,7 @@ func (ru *runner) runCase(in c14Input, tags []string, out *core.Emitter) (fatal 
 		ids = append(ids, t.ID)
 	}
 	cs := c14Case{In: in, Oracle: []string{}, Site: "wtxmgr.DependencySort"}
-	cs.Obs.Sort, cs.Obs.Store = [][]int{}, [][]int{}
+	cs.Obs.Sort, cs.Obs.Store, cs.Obs.Ledger, cs.Obs.HashList = [][]int{}, [][]int{}, []int{}, []int{}
 	kinds := map[string]bool{}
 	site := ""
 	note := func(ks []string, where string) {
@@ -372,32 +677,39 @@ func (ru *runner) runCase(in c14Input, tags []string, out *core.Emitter) (fatal 
 		if sruns < 2 {
 			sruns = 2
 		}
-		orders, kept, err := ru.storeRuns(built, idOf, ids, sruns)
-		cs.Obs.StoreKept = kept
+		res, err := ru.storeRuns(in, built, minedTx, idOf, ids, sruns)
+		if res.ledger != nil {
+			cs.Obs.Ledger = res.ledger
+		}
+		if res.hashList != nil {
+			cs.Obs.HashList = res.hashList
+		}
+		cs.Obs.HashesEq = res.hashesEq
+		cs.Obs.OpsApplied, cs.Obs.OpsSkipped = res.applied, res.skipped
 		if err != nil {
 			cs.Obs.StoreError = err.Error()
 			note([]string{"store_error"}, "wtxmgr.Store.UnminedTxs")
 		}
+		// "every unconfirmed transaction" = the harness's ledger. The order is
+		// judged over the ledger-restricted graph (members that were mined or
+		// removed count as outside parents). What UnminedTxHashes says is
+		// recorded and tagged only: the rebroadcast list is UnminedTxs.
+		live := restrict(in.Txs, res.ledger)
 		sseen := map[string]bool{}
-		for _, order := range orders {
+		for _, order := range res.orders {
 			cs.Obs.StoreRuns++
-			// the set the store holds is the inserted set when kept; when the
-			// store dropped members on insertion the comparison against the
-			// inserted set would blame UnminedTxs for it, so it is skipped
-			// and only tagged.
-			if kept {
-				note(c14Oracle(in.Txs, order), "wtxmgr.Store.UnminedTxs")
-			}
-			if k := orderKey(order); !sseen[k] && kept {
+			note(c14Oracle(live, order), "wtxmgr.Store.UnminedTxs")
+			if k := orderKey(order); !sseen[k] {
 				sseen[k] = true
 				cs.Obs.Store = append(cs.Obs.Store, order)
 			}
 		}
-		if kept {
-			tags = append(tags, "store")
-		} else {
-			tags = append(tags, "store_dropped_members")
+		tags = append(tags, "store")
+		if err == nil && !res.hashesEq {
+			tags = append(tags, "hash_list_differs_from_ledger")
 		}
+		tags = append(tags, res.tags...)
+		tags = append(tags, c14MinedFeatures(in, res.ledger)...)
 	}
 	if site != "" {
 		cs.Site = site
@@ -408,6 +720,53 @@ func (ru *runner) runCase(in c14Input, tags []string, out *core.Emitter) (fatal 
 	cs.Tags = append(tags, c14Features(in.Txs)...)
 	out.Emit(cs)
 	return fatal, nil
+}
+
+// c14MinedFeatures measures how the mined parents are used.
+func c14MinedFeatures(in c14Input, ledger []int) []string {
+	if len(in.Mined) == 0 {
+		return nil
+	}
+	cb := map[int]bool{}
+	anyCB := false
+	for _, mp := range in.Mined {
+		cb[mp.ID] = mp.Coinbase
+		anyCB = anyCB || mp.Coinbase
+	}
+	live := map[int]bool{}
+	for _, id := range ledger {
+		live[id] = true
+	}
+	tags := []string{"mined_parent"}
+	if anyCB {
+		tags = append(tags, "mined_coinbase_parent")
+	}
+	first, firstLive, firstOrd := false, false, false
+	for _, t := range in.Txs {
+		if len(t.Ins) == 0 {
+			continue
+		}
+		isCB, isMined := cb[t.Ins[0][0]]
+		if isMined && isCB {
+			first = true
+			if live[t.ID] {
+				firstLive = true
+			}
+		}
+		if isMined && !isCB {
+			firstOrd = true
+		}
+	}
+	if first {
+		tags = append(tags, "first_input_spends_mined_coinbase")
+	}
+	if firstLive {
+		tags = append(tags, "first_input_spends_mined_coinbase_in_ledger")
+	}
+	if firstOrd {
+		tags = append(tags, "first_input_spends_mined_ordinary")
+	}
+	return tags
 }
 
 // ---------------------------------------------------------------- features (measured)
@@ -772,6 +1131,114 @@ func c14Systematic(each func(txs []c14Tx) error) error {
 	return nil
 }
 
+// c14History draws, for a graph, which outside parents are real mined
+// transactions (coinbase or ordinary) and a history of confirm/abandon steps
+// that is valid for the ledger semantics (a member is confirmed only when none
+// of its in-set parents is still unconfirmed). The choices lean towards the
+// situations the ledger clause is about: a member whose FIRST input spends a
+// mined coinbase output, a confirmation that evicts a conflicting sibling with
+// descendants, an abandoned member with descendants.
+func c14History(r *gen.R, txs []c14Tx) ([]c14Mined, []c14Op) {
+	member := map[int]bool{}
+	for _, t := range txs {
+		member[t.ID] = true
+	}
+	var outs, firstOuts []int
+	seenOut := map[int]bool{}
+	for _, t := range txs {
+		for k, in := range t.Ins {
+			if member[in[0]] {
+				continue
+			}
+			if !seenOut[in[0]] {
+				seenOut[in[0]] = true
+				outs = append(outs, in[0])
+			}
+			if k == 0 {
+				firstOuts = append(firstOuts, in[0])
+			}
+		}
+	}
+	sort.Ints(outs)
+	var mined []c14Mined
+	if !r.Chance(1, 5) {
+		chosen := map[int]*c14Mined{}
+		for _, id := range outs {
+			if r.Chance(1, 2) {
+				chosen[id] = &c14Mined{ID: id, Coinbase: r.Chance(2, 3), H: r.Range(100, 150)}
+			}
+		}
+		if len(firstOuts) > 0 && r.Chance(3, 4) {
+			id := firstOuts[r.Intn(len(firstOuts))]
+			chosen[id] = &c14Mined{ID: id, Coinbase: true, H: r.Range(100, 150)}
+		}
+		for _, id := range outs {
+			if m := chosen[id]; m != nil {
+				mined = append(mined, *m)
+			}
+		}
+	}
+	var ops []c14Op
+	if r.Chance(1, 5) {
+		return mined, ops
+	}
+	led := newLedger(txs)
+	for _, t := range txs {
+		led.in[t.ID] = true
+	}
+	nops := r.Range(1, 6)
+	if lim := 1 + len(txs)/3; nops > lim {
+		nops = lim
+	}
+	h := 200
+	pick := func(l []int) int { return l[r.Intn(len(l))] }
+	for k := 0; k < nops && len(led.in) > 0; k++ {
+		live := led.ids()
+		var ready, readyConf, readyConfDesc, withDesc []int
+		for _, id := range live {
+			if led.hasLedgerChild(id) {
+				withDesc = append(withDesc, id)
+			}
+			if !led.canConfirm(id) {
+				continue
+			}
+			ready = append(ready, id)
+			cs := led.conflicts(id)
+			if len(cs) > 0 {
+				readyConf = append(readyConf, id)
+				for _, c := range cs {
+					if led.hasLedgerChild(c) {
+						readyConfDesc = append(readyConfDesc, id)
+						break
+					}
+				}
+			}
+		}
+		if len(ready) > 0 && r.Chance(3, 5) {
+			var id int
+			switch {
+			case len(readyConfDesc) > 0 && r.Chance(2, 3):
+				id = pick(readyConfDesc)
+			case len(readyConf) > 0 && r.Chance(1, 2):
+				id = pick(readyConf)
+			default:
+				id = pick(ready)
+			}
+			h += r.Range(0, 2)
+			ops = append(ops, c14Op{K: "confirm", ID: id, H: h})
+			led.confirm(id)
+		} else {
+			id := pick(live)
+			if len(withDesc) > 0 && r.Chance(2, 3) {
+				id = pick(withDesc)
+			}
+			ops = append(ops, c14Op{K: "abandon", ID: id})
+			led.abandon(id)
+		}
+	}
+	return mined, ops
+}
+
 func hasDupInput(txs []c14Tx) bool {
 	for _, t := range txs {
 		own := map[[2]int]bool{}
@@ -822,11 +1289,18 @@ func main() {
 			sysRuns = 12
 		}
 		stop := false
+		sysIdx := 0
+		rs := gen.New(c.Seed, 1403)
 		err = c14Systematic(func(txs []c14Tx) error {
 			if stop {
 				return nil
 			}
-			fatal, err := ru.runCase(c14Input{Txs: txs, Runs: sysRuns, Store: true}, []string{"systematic"}, out)
+			in := c14Input{Txs: txs, Runs: sysRuns, Store: true}
+			sysIdx++
+			if sysIdx%2 == 0 { // every other graph also gets mined parents and a history
+				in.Mined, in.Ops = c14History(rs, txs)
+			}
+			fatal, err := ru.runCase(in, []string{"systematic"}, out)
 			stop = stop || fatal
 			return err
 		})
@@ -835,6 +1309,7 @@ func main() {
 		}
 		// random part
 		r := gen.New(c.Seed, 14)
+		rh := gen.New(c.Seed, 1402) // mined parents and confirm/abandon histories
 		runs := 20
 		if thorough {
 			runs = 30
@@ -850,7 +1325,11 @@ func main() {
 				txs = c14Random(r)
 			}
 			txs = relabel(r, txs)
-			fatal, err := ru.runCase(c14Input{Txs: txs, Runs: runs, Store: !hasDupInput(txs)}, tags, out)
+			in := c14Input{Txs: txs, Runs: runs, Store: !hasDupInput(txs)}
+			if in.Store {
+				in.Mined, in.Ops = c14History(rh, txs)
+			}
+			fatal, err := ru.runCase(in, tags, out)
 			if err != nil || fatal {
 				return err
 			}
